@@ -57,14 +57,18 @@ def verify(d):
     if rc:
         raise SystemExit('patch does not apply: ' + out)
     rc, out = demo(d, meta)
-    res['demo_with_change'] = 'fail' if rc != 0 else 'PASSES (change not demonstrated)'
+    benign = bool(meta.get('benign'))
+    if benign:
+        res['demo_with_change'] = 'pass' if rc == 0 else 'FAILS (refactor changes behaviour)'
+    else:
+        res['demo_with_change'] = 'fail' if rc != 0 else 'PASSES (change not demonstrated)'
     res['demo_tail'] = out[-600:]
     os.remove(os.path.join(WT, 'tests', 'seeded_demo.rs'))
     rc, out = sh('cargo test --workspace --no-fail-fast --offline -- --skip test_msp_scanner', cwd=WT, timeout=3600)
     m = re.findall(r'test result: (\w+)\. (\d+) passed; (\d+) failed', out)
     res['suite_with_change'] = m
     res['suite_ok'] = rc == 0
-    ok = res['demo_without_change'] == 'pass' and res['demo_with_change'] == 'fail' and res['suite_ok']
+    ok = res['demo_without_change'] == 'pass' and res['demo_with_change'] == ('pass' if benign else 'fail') and res['suite_ok']
     res['confirmed'] = ok
     meta['verify'] = res
     meta['verified_at'] = time.strftime('%Y-%m-%d %H:%M')
@@ -136,8 +140,12 @@ def table():
         tgt = m.get('property')
         if det and tgt not in det and tgt in last:
             kinds.append('target %s missed' % tgt)
+        if m.get('benign'):
+            caught = ('**FALSE ALARM**: ' + ', '.join(det)) if det else 'none of %d checks (as it should be)' % len(last)
+        else:
+            caught = ', '.join(det) or '**missed**'
         rows.append('| %s | %s | %s | %s | %s | %s |' % (n, m.get('property'), m.get('summary', '')[:110].replace('|', '/'),
-                                                   m.get('needs', '')[:90].replace('|', '/'), ', '.join(det) or '**missed**', ', '.join(kinds)))
+                                                   m.get('needs', '')[:90].replace('|', '/'), caught, ', '.join(kinds)))
     print('| id | breaks | change | needs | caught by | how |\n|---|---|---|---|---|---|')
     print('\n'.join(rows))
 
